@@ -29,6 +29,12 @@ type Opts struct {
 	// Shuffle, when non-zero, permutes the option list handed to Parse (options
 	// are independent of each other; their order must not matter).
 	Shuffle uint64 `json:"shuffle,omitempty"`
+	// EntryEmpty passes Entrypoint("") (the documented way to say "the first rule").
+	EntryEmpty bool `json:"entry_empty,omitempty"`
+	// SharedOptions: the Option values of this call are taken from a set built
+	// once before the clients start, so that several clients apply the very
+	// same Option values (as a program with package-level options does).
+	SharedOptions bool `json:"shared_options,omitempty"`
 	// UseFile: the input is written to a file below the working directory and
 	// parsed with ParseFile (the name then has a directory part).
 	UseFile bool `json:"use_file,omitempty"`
@@ -58,7 +64,8 @@ type Parser struct {
 	GrammarJSON string
 	GrammarText string
 	Flags       []string
-	Has         map[string]bool // option constructors present in this template variant
+	Has         map[string]bool     // option constructors present in this template variant
+	Prebuild    func(keys []string) // builds the shared Option values (driver goroutine, before clients start)
 	Parse       func(filename string, input []byte, o *Opts, ctx *kernel.Ctx) (val any, err error, esc any, cnt uint64)
 	Inspect     func(err error) (bool, []ErrElem)
 	G           func() any
@@ -361,4 +368,24 @@ func DigestChoiceStats(m map[string]map[string]int) string {
 		b = append(b, '}', ' ')
 	}
 	return string(b)
+}
+
+// SharedKeys lists the keys of the Option values a call takes from the shared set.
+func (o *Opts) SharedKeys() []string {
+	if !o.SharedOptions {
+		return nil
+	}
+	var k []string
+	if o.Recover != nil {
+		k = append(k, fmt.Sprintf("recover:%v", *o.Recover))
+	}
+	if o.AllowInvalidUTF8 {
+		k = append(k, "utf8")
+	}
+	if o.EntryEmpty {
+		k = append(k, "entryempty")
+	} else if o.Entrypoint != "" {
+		k = append(k, "entry:"+o.Entrypoint)
+	}
+	return k
 }
